@@ -445,8 +445,20 @@ func (n *node) AddChildren(ch ...Node) {
 func (n *node) AddWhenChildren(fromAugment bool, ch ...Node) {
 	for _, child := range ch {
 		child.(*node).fromAugment = fromAugment
+		// An augment inside a uses that is itself expanded inside an augment
+		// is applied more than once to the same (shared) child statement:
+		// the 'when' it hands down must still be there only once.
+		present := false
+		for _, have := range n.children {
+			if have == child {
+				present = true
+				break
+			}
+		}
+		if !present {
+			n.children = append(n.children, child)
+		}
 	}
-	n.children = append(n.children, ch...)
 }
 
 func (n *node) AddedByAugment() bool { return n.fromAugment }
